@@ -142,14 +142,13 @@ class LinearCombinationOfGates(value.LinearDict[raw_types.Gate]):
     def _resolve_parameters_(
         self, resolver: cirq.ParamResolver, recursive: bool
     ) -> LinearCombinationOfGates:
-        return self.__class__(
-            {
-                protocols.resolve_parameters(
-                    gate, resolver, recursive
-                ): protocols.resolve_parameters(coeff, resolver, recursive)
-                for gate, coeff in self.items()
-            }
-        )
+        # Terms whose gates become equal once resolved add up.
+        terms: dict[Any, Any] = {}
+        for gate, coeff in self.items():
+            resolved_gate = protocols.resolve_parameters(gate, resolver, recursive)
+            resolved_coeff = protocols.resolve_parameters(coeff, resolver, recursive)
+            terms[resolved_gate] = terms.get(resolved_gate, 0) + resolved_coeff
+        return self.__class__(terms)
 
     def matrix(self) -> np.ndarray:
         """Reconstructs matrix of self using unitaries of underlying gates.
@@ -259,14 +258,13 @@ class LinearCombinationOfOperations(value.LinearDict[raw_types.Operation]):
     def _resolve_parameters_(
         self, resolver: cirq.ParamResolver, recursive: bool
     ) -> LinearCombinationOfOperations:
-        return self.__class__(
-            {
-                protocols.resolve_parameters(op, resolver, recursive): protocols.resolve_parameters(
-                    coeff, resolver, recursive
-                )
-                for op, coeff in self.items()
-            }
-        )
+        # Terms whose operations become equal once resolved add up.
+        terms: dict[Any, Any] = {}
+        for op, coeff in self.items():
+            resolved_op = protocols.resolve_parameters(op, resolver, recursive)
+            resolved_coeff = protocols.resolve_parameters(coeff, resolver, recursive)
+            terms[resolved_op] = terms.get(resolved_op, 0) + resolved_coeff
+        return self.__class__(terms)
 
     def matrix(self) -> np.ndarray:
         """Reconstructs matrix of self using unitaries of underlying operations.
